@@ -61,8 +61,8 @@ def doc_cases(ctx, bases):
     for _ in range(npairs):
         name = rng.choice(names)
         a, b = rng.sample(sites[name], 2)
-        if a.get('elem') == b.get('elem') and a['kind'] == 'rmchild':
-            continue
+        if a.get('elem') == b.get('elem'):
+            continue          # two faults on one element can cancel each other
         cases.append({'base': name, 'faults': [a, b]})
         stats['pairs'] += 1
     for name in names:
@@ -282,7 +282,9 @@ def run(ctx):
         for _ in range(400):
             name = rng.choice(sorted(bases))
             ss = F.enumerate_sites(F.parse(bases[name]), token_cap=6)
-            extra.append({'base': name, 'faults': rng.sample(ss, 2)})
+            a, b = rng.sample(ss, 2)
+            if a.get('elem') != b.get('elem'):
+                extra.append({'base': name, 'faults': [a, b]})
         res, _ = run_docs(bases, extra)
         more = failures_of(extra, res)
         mc = mask_cases(ctx)
